@@ -93,9 +93,15 @@ func c09Run(e *Env) {
 		// a stalled handshake ends when its context ends or the socket is closed underneath it
 		select {
 		case <-ctx.Done():
-			return ctx.Err()
+		case <-hsClosed:
+		}
+		// Close cancels the context and closes the socket back to back: decide by priority, not by the
+		// runtime's coin toss between two ready cases
+		select {
 		case <-hsClosed:
 			return fmt.Errorf("handshake: connection closed")
+		default:
+			return ctx.Err()
 		}
 	}
 	if IsDatagram(tr) {
